@@ -410,6 +410,12 @@ func (r *Reconciler) reconcileAbort(ctx context.Context, proposal *configapi.Pro
 				log.Warnf("Failed reconciling Transaction %d Proposal to target '%s'", proposal.TransactionIndex, proposal.TargetID, err)
 				return controller.Result{}, err
 			}
+			// The next proposal may be validated and committed now, although this one stays ABORTING
+			// until the previous proposal has been applied.
+			if proposal.Status.NextIndex != 0 {
+				return controller.Result{Requeue: controller.NewID(proposalstore.NewID(proposal.TargetID, proposal.Status.NextIndex))}, nil
+			}
+			return controller.Result{}, nil
 		} else if config.Status.Applied.Index == proposal.Status.PrevIndex &&
 			config.Status.Committed.Index >= proposal.TransactionIndex {
 			config.Status.Applied.Index = proposal.TransactionIndex
@@ -425,6 +431,31 @@ func (r *Reconciler) reconcileAbort(ctx context.Context, proposal *configapi.Pro
 			return controller.Result{}, nil
 		}
 
+		// The abort can only complete once the previous proposal has been applied: make sure that one is
+		// looked at, as reconcileApply does when it waits for its predecessor (the chain of predecessors
+		// must not end at an aborting proposal).
+		if proposal.Status.PrevIndex != 0 && config.Status.Applied.Index < proposal.Status.PrevIndex {
+			prevProposalID := proposalstore.NewID(proposal.TargetID, proposal.Status.PrevIndex)
+			prevProposal, err := r.proposals.Get(ctx, prevProposalID)
+			if err != nil {
+				if !errors.IsNotFound(err) {
+					return controller.Result{}, err
+				}
+				return controller.Result{}, nil
+			}
+			// only a proposal that is itself waiting to be applied or aborted can make progress when it is
+			// looked at (and it never hands the work straight back, so this cannot spin)
+			prevPhases := prevProposal.Status.Phases
+			if (prevPhases.Apply != nil && prevPhases.Apply.State == configapi.ProposalApplyPhase_APPLYING) ||
+				(prevPhases.Abort != nil && prevPhases.Abort.State == configapi.ProposalAbortPhase_ABORTING) {
+				return controller.Result{Requeue: controller.NewID(prevProposalID)}, nil
+			}
+		}
+	case configapi.ProposalAbortPhase_ABORTED:
+		// the indexes have moved past this proposal: the next one may proceed (as after COMMITTED and APPLIED)
+		if proposal.Status.NextIndex != 0 {
+			return controller.Result{Requeue: controller.NewID(proposalstore.NewID(proposal.TargetID, proposal.Status.NextIndex))}, nil
+		}
 	}
 	return controller.Result{}, nil
 }
@@ -754,7 +785,8 @@ func (r *Reconciler) reconcileApply(ctx context.Context, proposal *configapi.Pro
 			return controller.Result{}, err
 		}
 		return controller.Result{}, nil
-	case configapi.ProposalApplyPhase_APPLIED:
+	case configapi.ProposalApplyPhase_APPLIED, configapi.ProposalApplyPhase_FAILED:
+		// a failed apply has advanced the applied index too: the next proposal may proceed
 		if proposal.Status.NextIndex != 0 {
 			return controller.Result{
 				Requeue: controller.NewID(proposalstore.NewID(proposal.TargetID, proposal.Status.NextIndex)),
